@@ -2,14 +2,18 @@ package props
 
 import (
 	"bytes"
+	"errors"
 	"fmt"
 	"math/rand"
+	"sort"
 	"strings"
+	"sync/atomic"
 	"time"
 
 	proto "github.com/kubewharf/kubebrain-client/api/v2rpc"
 
 	"github.com/kubewharf/kubebrain/pkg/backend"
+	"github.com/kubewharf/kubebrain/pkg/storage"
 
 	"verif/internal/harness"
 )
@@ -23,7 +27,7 @@ func init() {
 		Plan: func(tier string) Plan {
 			return Plan{Level: "exploration", NCases: pick(tier, 96, 3000), Batch: 6, CaseTimeout: 120,
 				Rule: "one case = one PRNG sequential history (30-300 create/update/delete incl. failing ones) over prefix-related key names and hostile values on one engine (memkv, Badger, TiKV mock, metrics-wrapped, and engines reporting several partitions); " +
-					"every Get/List/limited List/Count at every checkpoint revision is compared with the reference MVCC snapshot, again after more writes and after a compaction below the checkpoint. " +
+					"every Get/List/limited List/Count at every checkpoint revision is compared with the reference MVCC snapshot, again after more writes and after a compaction below the checkpoint; every 6th case ends with a List and a streamed range during which one iterator answers a single transient error at a PRNG-drawn step (the scanner retries): a successful answer must still be the snapshot. " +
 					"non-trivial = history with >=1 deletion visible at some checkpoint, >=1 multi-version key and >=1 limited list cut short; distinct by (engine, outcome vector, key set)",
 				Assumptions: []string{"reads are issued only at revisions the node reported (response headers) and not below the compaction floor",
 					"TiKV is the in-process mock cluster"},
@@ -364,13 +368,29 @@ func runC03(c *harness.Case) {
 	}
 	var n *harness.Node
 	var eng *harness.Engine
-	if strings.Contains(kind, "/") {
+	var fw *harness.Wrap // set in the cases that end with reads under a transient iterator error
+	transient := c.Index%6 == 4
+	if strings.Contains(kind, "/") || transient {
 		// the same reads must hold when the engine reports several partitions (borders at stored or arbitrary internal keys)
-		kv, e, _, ok := partitionedStore(c, r, strings.Split(kind, "/")[0], keys, 1000, nOps)
-		if !ok {
-			return
+		var kv storage.KvStorage
+		if strings.Contains(kind, "/") {
+			var ok bool
+			kv, eng, _, ok = partitionedStore(c, r, strings.Split(kind, "/")[0], keys, 1000, nOps)
+			if !ok {
+				return
+			}
+		} else {
+			var err error
+			if eng, err = harness.NewEngine(strings.TrimSuffix(kind, "+m")); err != nil {
+				c.Inconclusive("engine: " + err.Error())
+				return
+			}
+			kv = eng.KV
 		}
-		eng = e
+		if transient {
+			fw = harness.NewWrap(kv)
+			kv = fw
+		}
 		n = harness.NewNode(harness.NodeOpts{KV: kv, Config: backend.Config{EnableEtcdCompatibility: true}})
 	} else {
 		var ok bool
@@ -444,6 +464,9 @@ func runC03(c *harness.Case) {
 	for _, R := range after {
 		s.readPass("C03", R, fmt.Sprintf("pass-C(after Compact(%d))", Rc), r)
 	}
+	if fw != nil && c.R.Verdict == "held" {
+		s.transientIterFaults(fw, r)
+	}
 	c.Stat("writes", int64(len(s.hist)))
 	c.Stat("checkpoints", int64(len(s.checks)))
 	c.Stat("failed_writes", int64(s.nFail))
@@ -457,4 +480,69 @@ func runC03(c *harness.Case) {
 		c.R.Sample = map[string]interface{}{"engine": kind, "keys": s.keys, "first_ops": h, "read_revisions": len(revsA) + len(after)}
 	}
 	_ = time.Now
+}
+
+// transientIterFaults: one iterator of the range scan answers a single non-EOF error at its N-th step (N drawn over
+// the number of engine records); the scanner retries that partition after its backoff. An answer that is still a
+// success must be the snapshot - no key twice, none missing.
+func (s *seqCtx) transientIterFaults(fw *harness.Wrap, r *rand.Rand) {
+	c := s.c
+	full := harness.Prefix + "/"
+	fullEnd := string(backend.PrefixEnd([]byte(full)))
+	encS, encE := coderC.EncodeObjectKey([]byte(full), 0), coderC.EncodeObjectKey([]byte(fullEnd), 0)
+	recs, err := harness.Dump(fw.KvStorage, encS, encE)
+	if err != nil || len(recs) < 3 {
+		return
+	}
+	R := s.n.Committed()
+	want := s.m.Snapshot(full, fullEnd, R)
+	for trial := 0; trial < 2; trial++ {
+		N := 1 + r.Intn(len(recs))
+		var fired int32
+		fw.IterFault = func(start, end []byte, n int) error {
+			if n == N && atomic.CompareAndSwapInt32(&fired, 0, 1) {
+				return errors.New("injected transient iterator error")
+			}
+			return nil
+		}
+		var got []*proto.KeyValue
+		what := ""
+		if trial == 0 {
+			what = fmt.Sprintf("List(%q,%q,rev=%d,limit=0)", full, fullEnd, R)
+			resp, lerr := s.n.List(full, fullEnd, R, 0)
+			if lerr != nil {
+				c.Stat("reads_failed_by_the_transient_iterator_error", 1)
+				fw.IterFault = nil
+				continue
+			}
+			got = resp.Kvs
+		} else {
+			what = fmt.Sprintf("ListByStream(rev=%d)", R)
+			batches, serr := streamAll(s.n, encS, encE, R)
+			failed := serr != nil
+			for _, b := range batches {
+				if b.Err != "" {
+					failed = true
+				}
+				got = append(got, b.RangeResponse.GetKvs()...)
+			}
+			if failed {
+				c.Stat("reads_failed_by_the_transient_iterator_error", 1)
+				fw.IterFault = nil
+				continue
+			}
+			sort.SliceStable(got, func(i, j int) bool { return bytes.Compare(got[i].Key, got[j].Key) < 0 })
+		}
+		fw.IterFault = nil
+		if atomic.LoadInt32(&fired) == 1 {
+			c.Stat("reads_answered_after_a_transient_iterator_error", 1)
+		}
+		if !sameKVs(want, got) {
+			if sameKVs(dropMarker(want), got) {
+				continue // the recorded deletion-marker finding, reported by the read passes
+			}
+			c.Violatef("C03 read-after-transient-iterator-error-differs-from-snapshot", s.witness(), "%s with one iterator error at step %d of a partition scan (retried by the scanner) answered %s; snapshot says %s", what, N, kvStr(got), mkvStr(want))
+			return
+		}
+	}
 }
